@@ -107,6 +107,12 @@ class Obj:
         return f"Obj({self.cls.name}{'#' + str(self.tag) if self.tag else ''})"
 
 
+@dataclass
+class ZipStar:
+    """zip(*rows) before it is unpacked: `a, b, c = zip(*rows)` binds a to the sequence of first components, ..."""
+    elem: Any
+
+
 class Returned(Exception):
     pass
 
@@ -456,6 +462,8 @@ class Interp:
             self.assign(target.value, val, env, fn, st)
 
     def unpack(self, val, n: int, node) -> list:
+        if isinstance(val, ZipStar):
+            return [ListOf(p) for p in self.unpack(val.elem, n, node)]
         if isinstance(val, Tup):
             if len(val.items) == n:
                 return list(val.items)
@@ -1316,6 +1324,9 @@ class Interp:
     def _builtin(self, callee: ExtRef, args, kwargs, node, env, fn):
         name = callee.name
         pargs = _plain(args)
+        if name == "builtins.zip" and len(args) == 1 and isinstance(args[0], tuple) and len(args[0]) == 2 and args[0][0] == "*":
+            # zip(*rows): the transposition - component k of the result is the sequence of the k-th components of the rows
+            return ZipStar(self.elem_of(args[0][1], node))
         if name == "builtins.zip":
             lists = [self.items_of(a) for a in pargs]
             if pargs and all(l is not None for l in lists):
